@@ -19,6 +19,7 @@ wait
 cat /tmp/corpus-seeds.*.log | sort > /tmp/corpus-seeds.log
 cat /tmp/corpus-mutants.*.log | grep " | " | sort > /tmp/corpus-mutants.log
 echo "seeds: $(grep -c '| caught' /tmp/corpus-seeds.log) caught of $(wc -l < /tmp/corpus-seeds.log), $(grep -c 'failing-input' /tmp/corpus-seeds.log) with a failing input replayed on the real code"
-grep -v '| caught' /tmp/corpus-seeds.log
+grep -v '| caught' /tmp/corpus-seeds.log || true
 echo "mutants: $(wc -l < /tmp/corpus-mutants.log) runs, $(grep -c UNEXPECTED /tmp/corpus-mutants.log) unexpected"
-grep UNEXPECTED /tmp/corpus-mutants.log
+grep UNEXPECTED /tmp/corpus-mutants.log || true
+[ "$(grep -vc '| caught' /tmp/corpus-seeds.log)" = 0 ] && [ "$(grep -c UNEXPECTED /tmp/corpus-mutants.log)" = 0 ]
